@@ -4,7 +4,7 @@ import Tpp.Ref.Input
 /-!
 Helper lemmas for the input-decoder properties (C05 C06 C07 C20): what the parser model does on the
 building blocks of the input protocol (digit strings, parameter strings, introducers, final bytes),
-and the arithmetic of `atoiGlibc` below 2^31.  No property statements here.
+and the arithmetic of `argToInt`.  No property statements here.
 -/
 namespace Tpp
 open Tpp.Ref
@@ -46,19 +46,23 @@ theorem feed_eq (s : PState) (b : Byte) : s.feed b =
 
 /-! ### atoi -/
 
-theorem atoi_small (ds : List Byte) (h : parseDec ds 0 < 2147483648) : atoiGlibc ds = (parseDec ds 0 : Nat) := by
-  unfold atoiGlibc trunc32
+theorem atoi_small (ds : List Byte) (h : parseDec ds 0 < 2147483648) : argToInt ds = (parseDec ds 0 : Nat) := by
+  unfold argToInt
   generalize parseDec ds 0 = n at *
-  have h1 : min n 9223372036854775807 = n := by omega
+  have h1 : min (min n 9223372036854775807) 2147483647 = n := by omega
   rw [h1]
-  have h2 : n % 4294967296 = n := by omega
-  rw [h2]
-  simp [h]
 
-theorem atoi_decDigits (n : Nat) (h : n < 2147483648) : atoiGlibc (decDigits n) = (n : Int) := by
+/-- a parameter that does not fit is clamped – it never wraps around into the range of meaningful values -/
+theorem atoi_large (ds : List Byte) (h : ¬ parseDec ds 0 < 2147483648) : argToInt ds = (2147483647 : Nat) := by
+  unfold argToInt
+  generalize parseDec ds 0 = n at *
+  have h1 : min (min n 9223372036854775807) 2147483647 = 2147483647 := by omega
+  rw [h1]
+
+theorem atoi_decDigits (n : Nat) (h : n < 2147483648) : argToInt (decDigits n) = (n : Int) := by
   rw [atoi_small] <;> rw [parseDec_zero_decDigits] ; exact h
 
-theorem atoi_nil : atoiGlibc [] = 0 := by decide
+theorem atoi_nil : argToInt [] = 0 := by decide
 
 /-! ### the arguments state -/
 
@@ -285,7 +289,7 @@ theorem wellKnown_keypad (i : Intro) (k : PadKey) (mods : Option Mods) :
   unfold convertKeypadSequence
   have hk : k.code < 2147483648 := by cases k <;> decide
   obtain ⟨d, ds, hd, hdig⟩ := decDigits_cons k.code
-  have ha : atoiGlibc (d :: ds) = (k.code : Int) := by rw [← hd]; exact atoi_decDigits _ hk
+  have ha : argToInt (d :: ds) = (k.code : Int) := by rw [← hd]; exact atoi_decDigits _ hk
   cases mods <;>
     simp [Item.expected, padParams, argsOf, seqMods, encParam, modBits, metaMod, Intro.metaBits, Consts.vkmod_none,
       convertModifier_code, seqOf, hd, hdig, ha, lookup_keypad]
@@ -304,12 +308,16 @@ theorem wellKnown_csi (i : Intro) (m : Option Marker) (ps : List (Option Nat)) (
     match ps, htilde with
     | [], _ => simp [seqOf, argsOf]
     | none :: r, _ => simp [seqOf, argsOf, encParam]
-    | some n :: r, ⟨hpad, hn⟩ =>
+    | some n :: r, hpad =>
       obtain ⟨d, ds, hd, hdig⟩ := decDigits_cons n
-      have hn' : n < 2147483648 := by simpa using hn
-      have ha : atoiGlibc (d :: ds) = (n : Int) := by rw [← hd]; exact atoi_decDigits _ hn'
       have hnone : padKeyOfCode n = none := by simpa [namesPadKey] using hpad
-      simp [seqOf, argsOf, encParam, hd, hdig, ha, lookup_keypad_eq, hnone]
+      by_cases hn' : n < 2147483648
+      · have ha : argToInt (d :: ds) = (n : Int) := by rw [← hd]; exact atoi_decDigits _ hn'
+        simp [seqOf, argsOf, encParam, hd, hdig, ha, lookup_keypad_eq, hnone]
+      · have ha : argToInt (d :: ds) = ((2147483647 : Nat) : Int) := by
+          rw [← hd]; exact atoi_large _ (by rw [parseDec_zero_decDigits]; exact hn')
+        have hl : lookupInt (2147483647 : Int) keypadTable = none := by decide
+        simp [seqOf, argsOf, encParam, hd, hdig, ha, hl]
   · rw [wellKnown, convertCommon_csi_nonpad _ rfl hf]
     unfold convertControlSequence
     have hl : lookupByte (seqOf 0x5B i m ps f).command cursorTable = none := lookup_cursor_none f hkey
@@ -600,10 +608,11 @@ theorem parseDec_all_digits_first (d : Byte) (ds : List Byte) (h : DigitsOnly (d
   simpa [DigitsOnly] using h
 
 /-- a control sequence that `get_well_known_virtual_key` turns into a key names that key in the xterm
-    tables – unless a parameter is ≥ 2^31 (atoi wraps) -/
+    tables – for EVERY parameter value (a parameter that does not fit an `int` is clamped, and the clamped
+    value names no key) -/
 theorem convertCommon_key (c : CtrlSeq) (k : VKey) (hargs : ∀ a ∈ c.args, DigitsOnly a)
     (h : convertCommon c = .key k) :
-    k.seq = .ctrl c ∧ (designates c k.key = true ∨ ∃ a ∈ c.args, 2147483648 ≤ parseDec a 0) := by
+    k.seq = .ctrl c ∧ designates c k.key = true := by
   unfold convertCommon at h
   split at h
   · rename_i hi
@@ -629,12 +638,12 @@ theorem convertCommon_key (c : CtrlSeq) (k : VKey) (hargs : ∀ a ∈ c.args, Di
               | some pk =>
                 simp [hp] at h
                 subst h
-                refine ⟨rfl, Or.inl ?_⟩
+                refine ⟨rfl, ?_⟩
                 have hd := parseDec_all_digits_first d ds (hargs _ (by simp [hargs0]))
                 simp [designates, keyNamedBy, hi', hcmd', firstParam, hargs0, hd, hp]
-            · exact ⟨by
-                revert h; split <;> intro h <;> simp at h
-                subst h; rfl, Or.inr ⟨d :: ds, by simp, by omega⟩⟩
+            · rw [atoi_large _ hsmall, lookup_keypad_eq] at h
+              have hnone : padKeyOfCode 2147483647 = none := by decide
+              simp [hnone] at h
     · rename_i hcmd
       have hcmd' : c.command ≠ 0x7E := hcmd
       unfold convertControlSequence at h
@@ -643,7 +652,7 @@ theorem convertCommon_key (c : CtrlSeq) (k : VKey) (hargs : ∀ a ∈ c.args, Di
       | some key =>
         simp [hl] at h
         subst h
-        refine ⟨rfl, Or.inl ?_⟩
+        refine ⟨rfl, ?_⟩
         simp [designates, keyNamedBy, hi', hcmd', lookup_cursor_some _ _ hl]
   · rename_i hi
     have hi' : c.initiator ≠ 0x5B := hi
@@ -656,7 +665,7 @@ theorem convertCommon_key (c : CtrlSeq) (k : VKey) (hargs : ∀ a ∈ c.args, Di
       | some key =>
         simp [hl] at h
         subst h
-        refine ⟨rfl, Or.inl ?_⟩
+        refine ⟨rfl, ?_⟩
         rw [lookup_ss3_eq] at hl
         simp [designates, keyNamedBy, hi2', hl]
     · simp at h
